@@ -11,6 +11,24 @@ CHECKS = {
         "level_note": "Trusts the reference comparators of harness/ref (written from LogicalTypes.md sort orders). NaN excluded. Find with CompareNullsFirst asserted only when all null pages come first.",
         "design_ref": "DESIGN.md §4 C06",
     },
+    "C01": {
+        "pkg": "c01", "level": "exploration",
+        "quick": {"shards": 8, "checks": 400, "timeout": 900},
+        "thorough": {"shards": 16, "checks": 6000, "timeout": 5000},
+        "technique": "property-based testing (rapid): generated schema x rows x writer options x Write/Flush history, round trip compared leaf-by-leaf with a reference Dremel shredder and, for typed structs, with the original Go values",
+        "level_text": "Random search over the product the property quantifies over: schema trees of every node kind over 37 leaf types, boundary-biased values (min/max, NaN payloads, -0, empty/long/0xFF byte strings, nil pointers, empty lists), every writer option, and write histories; the oracle is a reference shredder independent of the library plus Go-value equality after the documented normalisation for the typed front ends. Exploration with measured non-trivial rate is what PBT can give for an unbounded input space.",
+        "level_note": "Trusts harness/ref Dremel model (self-tested: Assemble∘Shred = id). File sizes are bounded (a few thousand rows). A Write/Flush/Close error is a rejection (the property speaks of accepted rows), counted and limited to 5%.",
+        "design_ref": "DESIGN.md §4 C01",
+    },
+    "C03": {
+        "pkg": "c03", "level": "exploration",
+        "quick": {"shards": 8, "checks": 600, "timeout": 900},
+        "thorough": {"shards": 16, "checks": 12000, "timeout": 5000},
+        "technique": "property-based differential testing (rapid): the same generated Go values through 8 ingestion paths, each compared level-by-level with a reference shredder and with each other",
+        "level_text": "Random search over a catalogue of struct types covering the documented tags and over row plans whose null/non-null runs are aimed at the 64-row bitmap words and batch boundaries; eight ingestion paths are compared with the reference Dremel streams of the documented Go mapping (so they are also compared with each other), and Reconstruct(Deconstruct(v)) with v.",
+        "level_note": "The catalogue is finite (13 struct types); types outside it are not covered. Lists of pointers are excluded while finding F05 is open. Trusts harness/ref and the harness's reading of the documented Go mapping (typed/walk.go, self-tested against SchemaOf).",
+        "design_ref": "DESIGN.md §4 C03",
+    },
 }
 
 NOT_APPLICABLE = {
